@@ -263,3 +263,75 @@ func c10Count(q []bool) int {
 	}
 	return n
 }
+
+// VerifC10FailingRuleChildren: through a running processor: with fail-on-first-error on, the rule after the failing one
+// does not run, yet the child event the failing rule added is processed; with it off, all rules run.  Priorities and
+// which rule fails are symbolic; the event order of the cascade follows the child monitor priorities.
+func VerifC10FailingRuleChildren() {
+	p := NewProcessor(1)
+	fofe := zz.Bool("failOnFirst")
+	p.SetFailOnFirstErrorInTriggerSequence(fofe)
+	var trace []string
+	prio := []int{zz.Choice("prio0", 3), zz.Choice("prio1", 3), zz.Choice("prio2", 3)}
+	failing := zz.Choice("failing", 4) // 3 = none
+	names := []string{"r0", "r1", "r2"}
+	for i := 0; i < 3; i++ {
+		i := i
+		err := p.AddRule(&Rule{Name: names[i], KindMatch: []string{"a"}, ScopeMatch: []string{}, Priority: prio[i],
+			Action: func(p Processor, m Monitor, e *Event, tid uint64) error {
+				trace = append(trace, names[i])
+				// every rule adds a child event; the child of rule i has priority 2-i (later rules' children first)
+				p.AddEvent(NewEvent("child"+names[i], []string{"c"}, map[interface{}]interface{}{"from": names[i]}), m.NewChildMonitor(2-i))
+				if i == failing {
+					return errors.New("failed")
+				}
+				return nil
+			}})
+		zz.Assert(err == nil, "C10.addrule")
+	}
+	var children []string
+	p.AddRule(&Rule{Name: "rc", KindMatch: []string{"c"}, ScopeMatch: []string{},
+		Action: func(p Processor, m Monitor, e *Event, tid uint64) error {
+			children = append(children, e.State()["from"].(string))
+			return nil
+		}})
+	p.Start()
+	m, err := p.AddEventAndWait(NewEvent("e", []string{"a"}, nil), nil)
+	zz.Reach("cascade-done")
+	zz.Assert(err == nil && m != nil, "C10.event-accepted")
+	// reference: rules in ascending priority (stable for equal priorities is not required: only the multiset per rank)
+	ran := map[string]bool{}
+	for _, r := range trace {
+		ran[r] = true
+	}
+	for j := 1; j < len(trace); j++ {
+		a, b := trace[j-1][1]-'0', trace[j][1]-'0'
+		zz.Assert(prio[a] <= prio[b], "C10.rule-order-ascending")
+	}
+	if fofe && failing < 3 {
+		zz.Assert(ran[names[failing]], "C10.failing-rule-ran")
+		zz.Assert(len(trace) > 0 && trace[len(trace)-1] == names[failing], "C10.nothing-runs-after-first-failure")
+	} else {
+		zz.Assert(len(trace) == 3, "C10.all-rules-run")
+	}
+	// every rule that ran added a child event, and every such child is processed - also the failing rule's
+	zz.Assert(len(children) == len(trace), "C10.children-of-all-run-rules-processed")
+	for _, r := range trace {
+		found := false
+		for _, c := range children {
+			if c == r {
+				found = true
+			}
+		}
+		zz.Assert(found, "C10.child-of-failing-rule-still-processed")
+	}
+	// children are taken in ascending child-monitor priority (2-i), oldest first among equals
+	for j := 1; j < len(children); j++ {
+		a, b := children[j-1][1]-'0', children[j][1]-'0'
+		zz.Assert(2-int(a) <= 2-int(b), "C10.cascade-events-taken-by-priority")
+	}
+	if failing < 3 {
+		errs := m.(*RootMonitor).AllErrors()
+		zz.Assert(len(errs) == 1, "C10.failure-reported")
+	}
+}
